@@ -6,6 +6,8 @@ import vlib
 # streams (seed:index of harness/ssx_stream.hpp) found at design time to take the rarest generator path seen so far: an
 # instruction thrown away for lack of a destination register after its source search had already stalled
 STATIC_PICKS = ['1:757', '1:1148', '1:1657', '1:2391']
+# stream whose eight programs contain 672 IMUL_RCP instructions (real keys: about 240): randomx_init_cache is run on it
+INIT_PICKS = ['1:2456']
 
 
 def record(ck, wd, keys, tag='ss'):
@@ -74,15 +76,42 @@ def scripted(ck, wd, tag='c09x', lite=False):
                     break
     except vlib.Infra as e:
         vlib.log('  ss_find unavailable on this tree (%s); using the fixed stream list only' % str(e)[:200])
+    # randomx_init_cache itself on scripted streams: streams with more IMUL_RCP instructions in the eight programs than the reciprocal
+    # table of any real key holds (a fixed pick with 672 of them, and pool streams just above 288 / with the most)
+    inits = []
+    if not lite:
+        inits = list(INIT_PICKS)
+        try:
+            rc, fo = vlib.sh([fx, '--seed', str(ck.seed), '--first', '5000', '--streams', '2400' if ck.thorough else '500', '--progs', '8'], timeout=1500, check=False)
+            cand = sorted((int(m.group(2)), m.group(1)) for m in re.finditer(r'S (\d+:\d+) .* rcp=(\d+)', fo))
+            above = [c for c in cand if 289 <= c[0] <= 340]
+            for c in (above[:1] + cand[-1:] if not ck.thorough else above[:4] + cand[-3:] + cand[len(cand) // 2:len(cand) // 2 + 2]):
+                if c[1] not in inits:
+                    inits.append(c[1])
+            found['init_rcp'] = inits
+        except (vlib.Infra, NameError):
+            pass
     os.makedirs(wd, exist_ok=True)
     outp = os.path.join(wd, tag + '_ssx.ndjson')
     nseeded = 600 if ck.thorough else (20 if lite else 30)
-    xl = vlib.run_harness([exe2, '--seed', str(ck.seed), '--tier', ck.tier, '--streams', str(nseeded), '--pick', ','.join(picks), '--out', outp], outp, timeout=1800)
+    xl = vlib.run_harness([exe2, '--seed', str(ck.seed), '--tier', ck.tier, '--streams', str(nseeded), '--pick', ','.join(picks), '--init', ','.join(inits), '--out', outp], outp, timeout=1800)
     res2 = vlib.validate_sharded('TraceSs', 'TraceSsNoGen.cfg', xl, tag, shards=16, timeout=6000, xmx='4g')
     ck.add_traces('TraceSs(scripted)', res2, 'programs generated by the real code from scripted random-byte streams (Blake2b refill interposed in the shared-object build): same programs and same number of consumed blocks as the generator machine; well-formedness under any stream')
-    ck.reject('TraceSs(scripted)', res2, lambda rj: 'ssx:stream=%s:%s' % (json.loads(rj['line']).get('sseed'), json.loads(rj['line']).get('idx')))
+    ck.reject('TraceSs(scripted)', res2, lambda rj: '%s:stream=%s:%s' % (json.loads(rj['line']).get('e'), json.loads(rj['line']).get('sseed'), json.loads(rj['line']).get('idx')))
     ck.cov['directed_streams'] = {'fixed': list(STATIC_PICKS), 'found_by_ss_find': found, 'pool': pool}
     return xl, res2, found
+
+
+def scripted_init(ck, wd, tag='c18init'):
+    """only the randomx_init_cache part: reciprocal table and immediate replacement on streams rich in IMUL_RCP (used by C18)"""
+    exe2 = vlib.build_harness('rx_ssx', shared=True)
+    os.makedirs(wd, exist_ok=True)
+    outp = os.path.join(wd, tag + '_ssx.ndjson')
+    xl = vlib.run_harness([exe2, '--seed', str(ck.seed), '--tier', ck.tier, '--streams', '0', '--init', ','.join(INIT_PICKS + ['1:5257']), '--out', outp], outp, timeout=1800)
+    res = vlib.validate_sharded('TraceSs', 'TraceSsNoGen.cfg', xl, tag, shards=4, timeout=6000, xmx='4g')
+    ck.add_traces('TraceSs(init_cache, scripted)', res, 'randomx_init_cache on scripted generator streams with 300-700 IMUL_RCP instructions: every table entry is the reciprocal (defining inequality) of the divisor of its instruction, immediates are the table indices')
+    ck.reject('TraceSs(init_cache, scripted)', res, lambda rj: 'ssinit:stream=%s:%s' % (json.loads(rj['line']).get('sseed'), json.loads(rj['line']).get('idx')))
+    return xl, res
 
 
 def path_stats(prints):
